@@ -355,7 +355,10 @@ func main() {
 			o := run(i)
 			if o != first {
 				what := "output differs between repetitions of the same run"
-				if k := attributionClass(first.Errs, o.Errs); k != "" {
+				// (only runs over several files can differ by attribution alone: the recorded finding is about
+				// which FILE's goroutine reaches a shared cache first; inside one file the order is fixed)
+				multi := strings.HasPrefix(key, "multi:") || strings.HasPrefix(key, "project:")
+				if k := attributionClass(first.Errs, o.Errs); k != "" && multi {
 					// same diagnostics, attributed to different files/positions
 					what = "the same messages are attributed to different files (or reported a different number of times) between repetitions of a multi-file run"
 					key = k
@@ -678,6 +681,56 @@ func main() {
 				}
 			}
 		}
+	}
+	// (11) jobs written as a flow mapping over several lines with DEcreasing indentation: the job
+	// order is by (line, column) lexicographically; the first job using a broken local action is
+	// the one that reports it
+	{
+		fp := filepath.Join(*out, "flowproj")
+		hx.Must(os.MkdirAll(filepath.Join(fp, ".git"), 0o755))
+		writeFile(filepath.Join(fp, "broken", "action.yml"), "name: b\ninputs: 42\nruns:\n  using: node20\n  main: index.js\n")
+		wf := filepath.Join(fp, ".github", "workflows", "w.yaml")
+		writeFile(wf, "on: push\njobs: {\n            zed: {runs-on: ubuntu-latest, steps: [{uses: ./broken}, {run: 'echo ${{ nope1 }}'}]},\n        yak: {runs-on: ubuntu-latest, steps: [{uses: ./broken}]},\n    xen: {runs-on: ubuntu-latest, needs: [wax], steps: [{uses: ./broken}]},\n  wax: {runs-on: ubuntu-latest, needs: [xen], steps: [{uses: ./broken}, {run: 'echo ${{ nope2 }}'}]}\n}\n")
+		sum.Dist["site_multiline_flow_jobs"]++
+		check("site:multiline-flow-jobs", "jobs as a flow mapping over several lines with decreasing indentation, every job uses the same broken local action", "", func(rep int) result {
+			runtime.GOMAXPROCS(procs[rep%len(procs)])
+			var ob bytes.Buffer
+			l := newLinter(&ob)
+			errs, err := l.LintFile(wf, nil)
+			res := result{Errs: strings.ReplaceAll(fmtErrs(errs), fp, "<proj>"), Out: strings.ReplaceAll(ob.String(), fp, "<proj>")}
+			if err != nil {
+				res.Fail = "fatal"
+			}
+			return res
+		})
+	}
+	// (12) matrix: a row given by an expression, include entries assigning that row together with
+	// include-only keys, exclude entries on those keys (rule_matrix.go ranges over the assigns map)
+	for k := 0; k < *nsite; k++ {
+		keys := []string{"gui", "extra2", "flavor", "zeta", "alpha"}
+		var b strings.Builder
+		b.WriteString("on: push\njobs:\n  a:\n    runs-on: ubuntu-latest\n    strategy:\n      matrix:\n        os: ${{ fromJSON('[\"a\"]') }}\n        ver: [1, 2]\n        include:\n")
+		var used []string
+		for i := 0; i < 2+r.Intn(2); i++ {
+			b.WriteString("          - os: linux\n")
+			for _, j := range r.Perm(len(keys))[:1+r.Intn(3)] {
+				fmt.Fprintf(&b, "            %s: v%d\n", keys[j], i)
+				used = append(used, fmt.Sprintf("%s: v%d", keys[j], i))
+			}
+			if r.Chance(1, 2) {
+				b.WriteString("            ver: 3\n")
+			}
+		}
+		b.WriteString("        exclude:\n")
+		for _, u := range used {
+			if r.Chance(2, 3) {
+				b.WriteString("          - " + u + "\n")
+			}
+		}
+		b.WriteString("          - ver: 1\n    steps:\n      - run: echo\n")
+		src := b.String()
+		sum.Dist["site_matrix_expression_row"]++
+		check("site:matrix-expr-row:"+src, "generated matrix with an expression row", src, func(rep int) result { return lintContent("gen.yaml", []byte(src), rep) })
 	}
 	runtime.GOMAXPROCS(runtime.NumCPU())
 	sum.Nontrivial = nontrivial
